@@ -214,6 +214,30 @@ class SetParam(Component):
       s.out @= s.in_ + k
 
 
+import collections as _collections
+import dataclasses as _dataclasses
+
+OpsTuple = _collections.namedtuple("OpsTuple", ["ops", "n"])
+
+
+@_dataclasses.dataclass(frozen=True)
+class OpsData:
+  ops: frozenset
+  n: int = 2
+
+
+class RecordParam(Component):
+  """a named tuple / a dataclass instance that holds a set (the set inside is printed in hash order by str())"""
+  def construct(s, cfg):
+    s.in_ = InPort(Bits8)
+    s.out = OutPort(Bits8)
+    k = (1 if "add" in cfg.ops else 0) + (2 if "mul" in cfg.ops else 0) + cfg.n
+
+    @update
+    def up_rec():
+      s.out @= s.in_ + k
+
+
 class FnListParam(Component):
   """functions inside a list / tuple / dict argument"""
   def construct(s, fns, more=None):
@@ -526,6 +550,60 @@ class UnicodeName(Component):
       s.out @= s.zähler
 
 
+Größe = mk_bitstruct("Größe", {"a": Bits4, "b": Bits4})
+
+
+class UnicodeStruct(Component):
+  """a bitstruct type whose (legal Python) name is not a legal Verilog identifier"""
+  def construct(s):
+    s.in_ = InPort(Größe)
+    s.out = OutPort(Bits4)
+
+    @update
+    def up_us():
+      s.out @= s.in_.a ^ s.in_.b
+
+
+class _UIfc(Interface):
+  def construct(s):
+    s.zähler = InPort(Bits8)
+    s.en = InPort(Bits1)
+
+
+class UnicodeIfcMember(Component):
+  """an interface member with such a name"""
+  def construct(s):
+    s.x = _UIfc()
+    s.out = OutPort(Bits8)
+
+    @update
+    def up_uim():
+      s.out @= s.x.zähler & sext(s.x.en, 8)
+
+
+class _Inner(Component):
+  def construct(s):
+    s.in_ = InPort(Bits8)
+    s.out = OutPort(Bits8)
+
+    @update
+    def up_inner():
+      s.out @= s.in_ + 1
+
+
+Zähler = type("Zähler", (_Inner,), {})
+
+
+class UnicodeClass(Component):
+  """a sub-component whose class has such a name"""
+  def construct(s):
+    s.in_ = InPort(Bits8)
+    s.out = OutPort(Bits8)
+    s.c = Zähler()
+    s.c.in_ //= s.in_
+    s.out //= s.c.out
+
+
 class BlockNamedLikeSignal(Component):
   """update blocks that have the name of a port, of a wire and of a sub-component (named blocks live in the module name space)"""
   def construct(s):
@@ -568,4 +646,4 @@ class StructNameCollide(Component):
 
 
 MANGLE = {"MangleIfc": MangleIfc, "MangleList": MangleList, "MangleChild": MangleChild, "MangleStruct": MangleStruct,
-          "MangleChildList": MangleChildList, "MangleWireIfc": MangleWireIfc, "KeywordField": KeywordField, "TmpCollide": TmpCollide, "LoopVarCollide": LoopVarCollide, "UnicodeName": UnicodeName, "BlockNamedLikeSignal": BlockNamedLikeSignal, "StructNameCollide": StructNameCollide}
+          "MangleChildList": MangleChildList, "MangleWireIfc": MangleWireIfc, "KeywordField": KeywordField, "TmpCollide": TmpCollide, "LoopVarCollide": LoopVarCollide, "UnicodeName": UnicodeName, "UnicodeStruct": UnicodeStruct, "UnicodeIfcMember": UnicodeIfcMember, "UnicodeClass": UnicodeClass, "BlockNamedLikeSignal": BlockNamedLikeSignal, "StructNameCollide": StructNameCollide}
